@@ -1,7 +1,7 @@
 /-
   C10: concrete witnesses (non-vacuity of the hypotheses, pinned variants).
 -/
-import Gotree.Lemmas.C10Inv
+import Gotree.Lemmas.C10Oracle
 
 namespace Gotree.C10
 open Gotree
@@ -63,5 +63,28 @@ theorem zero_div_one : ((0 : Nat) : Rat) / ((1 : Nat) : Rat) = 0 := by
 theorem one_div_one : ((1 : Nat) : Rat) / ((1 : Nat) : Rat) = 1 := by
   have : ((1 : Nat) : Rat) = 1 := rfl
   rw [this, Rat.div_def, Rat.mul_inv_cancel _ (by decide)]
+
+/-! ## the pinned variants, for all inputs -/
+
+theorem fbpLoopPinned14_noerr (r : T) : ∀ (bs : List T) (c : List Nat) (n : Nat),
+    (fbpLoopPinned14 r bs c n).2.2 = false
+  | [], _, _ => rfl
+  | _ :: bs, _, _ => by
+    unfold fbpLoopPinned14
+    exact fbpLoopPinned14_noerr r bs _ _
+
+theorem tbeLoopPinned15_err (r : T) : ∀ (bs : List T) (sups : List Rat) (n : Nat) (e : Bool),
+    (tbeLoopPinned15 r bs sups n e).2.2 =
+      match bs.getLast? with
+      | none => e
+      | some b => !compareTips r b
+  | [], _, _, _ => rfl
+  | [b], _, _, _ => by simp [tbeLoopPinned15]
+  | b :: b' :: bs, sups, n, e => by
+    unfold tbeLoopPinned15
+    rw [tbeLoopPinned15_err r (b' :: bs), List.getLast?_cons_cons]
+    cases h : (b' :: bs).getLast? with
+    | none => simp at h
+    | some x => rfl
 
 end Gotree.C10
